@@ -87,7 +87,7 @@ def interceptor_inst(tier):
     pick = lambda tu, fn: find_func(tu, 'sandbox_callback_interceptor', 'rlbox::rlbox_sandbox<rlbox::vsbx>')
     return Inst('c19_callback_brackets', 'rlbox_sandbox<vsbx>& s, tainted<int, vsbx> (*f)(rlbox_sandbox<vsbx>&, tainted<long, vsbx>)', 's.register_callback(f);', cl, h,
                 leaves=[dyn, ctx], prop=PROP, root_name='sandbox_callback_interceptor', tier=tier, pre=GH + ' void *g_cur_sbp; unsigned long g_cur_key;\n' + HOOKS, post_protos=post,
-                root_pick=pick, facts=FACTS, opts={'extern_functions': ('vhook_in', 'vhook_out'), 'indirect_stubs': {'target_fn_ptr': 'app_cb_stub'}, 'per_site_leaves': ()},
+                root_pick=pick, facts=FACTS, opts={'extern_functions': ('vhook_in', 'vhook_out'), 'indirect_stubs': {'*': 'app_cb_stub'}, 'per_site_leaves': ()},
                 extra_replace=['vhook_in', 'vhook_out', 'app_cb_stub'], note='callback: OUT at entry, application function, IN at exit')
 
 
